@@ -7,6 +7,7 @@ import Zeno.Props.C17
 import Zeno.Props.C14
 import Zeno.Props.C09
 import Zeno.Props.C15
+import Zeno.Props.C16
 import Zeno.Props.C04
 import Zeno.Props.C01
 import Zeno.Props.C02
